@@ -254,7 +254,7 @@ def higher(shape, kind, D, P, seed, salt):
     return h
 
 
-VARIANTS = ['dense', 'arg0:order1=0', 'arg0:const', 'arg1:order1=0', 'arg1:const']
+VARIANTS = ['dense', 'arg0:order1=0', 'arg0:const', 'arg1:order1=0', 'arg1:const', 'arg0:high*2^31']
 
 
 def make_args(entry, D, P, seed=0, variant='dense'):
@@ -277,6 +277,8 @@ def make_args(entry, D, P, seed=0, variant='dense'):
             data[1] = 0
         if variant == 'arg%d:const' % nu and D > 1:
             data[1:] = 0
+        if variant == 'arg%d:high*2^31' % nu and D > 2:
+            data[2:] *= 2.0 ** 31        # huge coefficients of order >= 2 must not influence orders 0 and 1
         out.append(UTPM(data))
     return out
 
@@ -285,7 +287,10 @@ def variants_for(entry, D):
     nu = sum(1 for q in entry.args if q[0] == 'u')
     if D < 2:
         return ['dense']
-    return [v for v in VARIANTS if v == 'dense' or int(v[3]) < nu]
+    out = [v for v in VARIANTS if v == 'dense' or (int(v[3]) < nu and 'high' not in v)]
+    if D > 2 and entry.tags & {'decomp', 'linalg'}:
+        out.append('arg0:high*2^31')
+    return out
 
 
 def outputs(res):
